@@ -51,10 +51,14 @@ def param_keys(f):
             for t in x.targets:
                 if isinstance(t, ast.Subscript) and norm(t.value) == 'params' and isinstance(t.slice, ast.Constant):
                     out.append((t.slice.value, x))
-        if isinstance(x, ast.Call) and norm(x.func) == 'params.update' and x.args and isinstance(x.args[0], ast.Dict):
-            for k in x.args[0].keys:
-                if isinstance(k, ast.Constant):
-                    out.append((k.value, x))
+        if isinstance(x, ast.Call) and norm(x.func) == 'params.update':
+            if x.args and isinstance(x.args[0], ast.Dict):
+                for k in x.args[0].keys:
+                    if isinstance(k, ast.Constant):
+                        out.append((k.value, x))
+            for k in x.keywords:
+                if k.arg:
+                    out.append((k.arg, x))
     return out
 
 
